@@ -178,6 +178,9 @@ type Case struct {
 	Program   string `json:"program"` // ops; after the program all-ReadToken until EOF/error
 	Sched     Sched  `json:"sched"`
 	AllowDup  bool   `json:"allow_dup"`
+	// Prime > 0: before the run the (reused) decoder has decoded one string of Prime bytes from a plain reader, so
+	// that its internal buffer has grown as it would have in a longer-lived decoder; 0 = freshly made decoder
+	Prime int `json:"prime,omitempty"`
 }
 
 const maxSteps = 4096
@@ -408,16 +411,39 @@ func normKind(k byte, first byte) byte {
 func report(r *evid.Run, cs Case, msg string) {
 	cs.Input = append([]byte(nil), cs.Input...)
 	cs.InputText = string(cs.Input)
+	// the exploration reuses decoders (Reset), whose internal buffer keeps the capacity reached earlier; find the
+	// decoder history (fresh, or primed to a given size) under which this case fails deterministically
+	if ReplayCase(cs) == "" {
+		for _, p := range []int{40, 100, 200, 400, 800, 1600, 3200, 6400, 12800, 25600, 70000} {
+			cs.Prime = p
+			if ReplayCase(cs) != "" {
+				break
+			}
+			cs.Prime = 0
+		}
+	}
 	key := fmt.Sprintf("c05|%q|%s|%+v|dup=%v", cs.Input, cs.Program, cs.Sched, cs.AllowDup)
 	r.Violation(key, msg, cs, func() bool { return ReplayCase(cs) != "" })
 }
 
 // ReplayCase re-executes one recorded execution twice (determinism guard) and returns the failure message.
 func ReplayCase(cs Case) string {
+	switch cs.Program {
+	case "UnmarshalRead":
+		return routeUnmarshalRead(cs.Input, cs.Sched)
+	case "UnmarshalDecode":
+		return routeUnmarshalDecode(cs.Input, cs.Sched)
+	}
 	one := func() string {
 		x := newRunner()
 		if cs.AllowDup {
 			x.opts = []jsontext.Options{jsontext.AllowDuplicateNames(true)}
+		}
+		if cs.Prime > 0 {
+			doc := append(append([]byte{'"'}, bytes.Repeat([]byte{'x'}, cs.Prime)...), '"')
+			x.rd = reader{data: doc}
+			x.dec.Reset(&x.rd)
+			x.dec.ReadValue()
 		}
 		base := append([]obs(nil), x.baseline(cs.Input, cs.Program)...)
 		if m := model(cs.Input, cs.Program, base, refjson.Opts{AllowDupNames: cs.AllowDup}); m != "" {
@@ -972,46 +998,69 @@ func unmarshalRoutes(r *evid.Run) {
 				return
 			}
 			in := append([]byte(nil), s...)
-			var want any
-			wantErr := jsonv2.Unmarshal(in, &want)
 			for _, sc := range []Sched{{}, {Chunk: 1}, {Chunk: 3, Empty: true}, {Chunk: 2, DataEOF: true}} {
 				cur = Case{Input: in, Program: "UnmarshalRead", Sched: sc}
 				evals++
-				var got any
-				gotErr := jsonv2.UnmarshalRead(&reader{data: in, s: sc}, &got)
-				if (gotErr == nil) != (wantErr == nil) || (wantErr == nil && !reflect.DeepEqual(got, want)) || semKey(gotErr) != semKey(wantErr) {
-					report(r, cur, fmt.Sprintf("UnmarshalRead = (%v, %v), Unmarshal = (%v, %v)", got, gotErr, want, wantErr))
+				if m := routeUnmarshalRead(in, sc); m != "" {
+					report(r, cur, m)
 				}
 				if !valid {
 					continue
 				}
-				// stream route: decode every value in turn with UnmarshalDecode and compare with Unmarshal of each span
 				cur.Program = "UnmarshalDecode"
-				dec := jsontext.NewDecoder(&reader{data: in, s: sc})
-				m := refjson.NewDecModel(in, refjson.Opts{})
-				for m != nil {
-					span, ok, _ := m.Value()
-					var a, b any
-					err := jsonv2.UnmarshalDecode(dec, &a)
-					if !ok {
-						if err != io.EOF {
-							report(r, cur, fmt.Sprintf("UnmarshalDecode at end of stream returned %v, want io.EOF", err))
-						}
-						break
-					}
-					err2 := jsonv2.Unmarshal(span, &b)
-					if (err == nil) != (err2 == nil) || !reflect.DeepEqual(a, b) {
-						report(r, cur, fmt.Sprintf("UnmarshalDecode value %q = (%v, %v), Unmarshal = (%v, %v)", span, a, err, b, err2))
-						break
-					}
-					if err != nil {
-						break
-					}
+				if m := routeUnmarshalDecode(in, sc); m != "" {
+					report(r, cur, m)
 				}
 			}
 		}
 	})
 	r.Bound("UnmarshalRead vs Unmarshal and UnmarshalDecode-per-value vs Unmarshal on every interesting B-atom document x 4 reader shapes")
+}
+
+// routeUnmarshalRead: UnmarshalRead over the schedule equals Unmarshal of the whole slice.
+func routeUnmarshalRead(in []byte, sc Sched) (msg string) {
+	defer func() {
+		if p := recover(); p != nil {
+			msg = fmt.Sprintf("library panic: %v", p)
+		}
+	}()
+	var want, got any
+	wantErr := jsonv2.Unmarshal(in, &want)
+	gotErr := jsonv2.UnmarshalRead(&reader{data: in, s: sc}, &got)
+	if (gotErr == nil) != (wantErr == nil) || (wantErr == nil && !reflect.DeepEqual(got, want)) || semKey(gotErr) != semKey(wantErr) {
+		return fmt.Sprintf("UnmarshalRead = (%v, %v), Unmarshal = (%v, %v)", got, gotErr, want, wantErr)
+	}
+	return ""
+}
+
+// routeUnmarshalDecode: decoding every value of the stream in turn with UnmarshalDecode equals Unmarshal of each span.
+func routeUnmarshalDecode(in []byte, sc Sched) (msg string) {
+	defer func() {
+		if p := recover(); p != nil {
+			msg = fmt.Sprintf("library panic: %v", p)
+		}
+	}()
+	dec := jsontext.NewDecoder(&reader{data: in, s: sc})
+	m := refjson.NewDecModel(in, refjson.Opts{})
+	for m != nil {
+		span, ok, _ := m.Value()
+		var a, b any
+		err := jsonv2.UnmarshalDecode(dec, &a)
+		if !ok {
+			if err != io.EOF {
+				return fmt.Sprintf("UnmarshalDecode at end of stream returned %v, want io.EOF", err)
+			}
+			break
+		}
+		err2 := jsonv2.Unmarshal(span, &b)
+		if (err == nil) != (err2 == nil) || !reflect.DeepEqual(a, b) {
+			return fmt.Sprintf("UnmarshalDecode value %q = (%v, %v), Unmarshal = (%v, %v)", span, a, err, b, err2)
+		}
+		if err != nil {
+			break
+		}
+	}
+	return ""
 }
 
 func semKey(err error) string {
